@@ -183,8 +183,9 @@ def run_task(task):
             seed = core.mix32(base_seed, prop, sc.name, shard)
             run_hypothesis(prop, sc, tier, seed, per_shard, stats)
     except BaseException as exc:  # noqa - reported as harness error, never as a violation
-        stats.errors.append("%s in sub-check %d shard %d: %s\n%s"
-                            % (type(exc).__name__, sub_idx, shard, exc, traceback.format_exc(limit=12)))
+        stats.errors.append("%s in sub-check %d shard %d: %s || %s"
+                            % (type(exc).__name__, sub_idx, shard, str(exc)[:300],
+                               " | ".join(traceback.format_exc().strip().splitlines()[-7:])[:900]))
     result = stats.as_dict()
     result.update({"sub_idx": sub_idx, "shard": shard, "wall_s": time.time() - started})
     return result
@@ -309,7 +310,12 @@ def main(argv):
         seen.add(v["replay"])
         print("  violation in %s: %s" % (v["subcheck"], v["detail"][:600]))
         print("VIOLATION property=%s replay=%s" % (prop, v["replay"]))
+    shown = set()
     for e in errors:
+        key = e.split(" shard ")[0] + e.split("||")[0][-80:]
+        if key in shown:
+            continue
+        shown.add(key)
         print("HARNESS-ERROR %s" % e)
 
     # 5. evidence
